@@ -63,13 +63,13 @@ class AbstractVector(StructuredRecord):
         # type: () -> Seq
         """Get the upstream overhang of the vector sequence.
         """
-        return self._match.group(3).seq
+        return self._match.group(3).seq.upper()
 
     def overhang_end(self):
         # type: () -> Seq
         """Get the downstream overhang of the vector sequence.
         """
-        return self._match.group(1).seq
+        return self._match.group(1).seq.upper()
 
     def placeholder_sequence(self):
         # type: () -> SeqRecord
